@@ -300,6 +300,8 @@ E4_FAMILIES = [
     ("loop", "loop with every choice of (pre-header, body, exit) instruction (2744)"),
     ("call", "call between every pair of instructions (196)"),
     ("arith", "every 3-instruction body over a 14-instruction arithmetic alphabet: constants, lui, mul/mulhu/div/rem, division by zero, shifts by large amounts, x0-sourced compares, la/lw (2744; thorough: 4 instructions, 38416)"),
+    ("mix", "every (stack, arithmetic, stack) instruction triple from the two alphabets (2744)"),
+    ("fp", "a function keeping a frame pointer, with every pair of instructions from the stack alphabet plus sp moves in between (324)"),
     ("func", "every function body of 1-3 instructions over a 10-instruction save/restore alphabet, between the frame push and pop (1110; thorough: 1-4, 11110)"),
 ]
 for fam, d in E4_FAMILIES:
@@ -308,3 +310,62 @@ for fam, d in E4_FAMILIES:
          bounds="program family enumerated exhaustively; word-granular memory; calls havoc caller-saved+ra", family=fam)
 side("e4_seq4", "e4", ["C01", "C06"], tier="thorough", symbolic="as above", desc="E4: every 4-instruction body over the alphabet (38416 programs)",
      bounds="exhaustive", family="seq4")
+
+# ---------------------------------------------------------------------------
+# C13 (decode level): spelling rewrites of the catalogue statements, decided by E3 like the base texts
+import re as _re
+_ABI = ["zero", "ra", "sp", "gp", "tp", "t0", "t1", "t2", "s0", "s1", "a0", "a1", "a2", "a3", "a4", "a5", "a6", "a7",
+        "s2", "s3", "s4", "s5", "s6", "s7", "s8", "s9", "s10", "s11", "t3", "t4", "t5", "t6"]
+_SWAP = {}
+for _i, _n in enumerate(_ABI):
+    _SWAP[_n] = "x%d" % _i
+    _SWAP["x%d" % _i] = _n
+_SWAP["fp"] = "x8"
+
+
+def _swap_regs(text):
+    return _re.sub(r"(?<![\w'])(x\d+|zero|ra|sp|gp|tp|fp|[tsa]\d+)(?![\w'])", lambda m: _SWAP.get(m.group(1), m.group(1)), text)
+
+
+def _radix(text):
+    def conv(m):
+        n = int(m.group(2))
+        return m.group(1) + ("-0x%x" % -n if n < 0 else "0x%x" % n)
+    # a decimal literal standing alone as an operand (after a space/comma, before end, comma, space or parenthesis)
+    return _re.sub(r"([ ,])(-?\d+)(?=$|[ ,(])", conv, text)
+
+
+def spelling_variants(text):
+    first, _, rest = text.partition(" ")
+    out = {
+        "spaces": "\t  " + text.replace(", ", " ,\t ").replace(" ", "  "),
+        "nocomma": text.replace(",", " "),
+        "upper": first.upper() + (" " + rest if rest else ""),
+        "regs": _swap_regs(text),
+        "comment": text + " # note",
+        "radix": _radix(text),
+    }
+    if " 0(" in text:
+        out["zerooff"] = text.replace(" 0(", " (")
+    return {k: v for k, v in out.items() if v != text}
+
+
+for c in _cases:
+    for vname, vtext in spelling_variants(c["text"]).items():
+        vc = dict(c, name=c["name"] + "__" + vname, text=vtext)
+        side("e3_" + vc["name"], "e3", ["C13"], tier="quick" if c["tier"] == "quick" or vname in ("regs", "radix") else "thorough",
+             symbolic="31 register contents, pc, loaded words, label address: (_ BitVec 32)",
+             desc="spelling '%s' of '%s' (rewrite: %s), parsed natively by the real Lexer + ParserNode::try_from, has the effect of %s for all register contents" % (
+                 vtext.replace("\t", "<tab>"), c["text"], vname, "; ".join(e["k"] for e in c["expected"])),
+             bounds="concrete text (catalogue x rewrite); <= 2 instructions", case=vc)
+TEXT_CASES = TEXT_CASES + [h_["case"] for h_ in HARNESSES if h_.get("engine") == "e3" and "__" in h_["name"]]
+for n in (2, 3, 4):
+    pass
+for x in HARNESSES:
+    if x["name"].startswith("regs_from_str") or x["name"].startswith(("imm_hex8", "imm_bin16", "imm_dec10_window")):
+        x["props"] = [p_ for p_ in x["props"] if p_ != "C13x"] + ["C13"]
+prop("C13",
+     outside="blank lines, comments on their own line, labels on their own line or in front of a statement, several statements per "
+             "line, anything after decoding (CFG, analyses, lints) and the token ranges diagnostics are attached to; statements "
+             "outside the catalogue",
+     assumptions=COMMON_ASSUME + ["the diagnostics depend on a statement only through the decoded node(s) (true by reading, not checked)"])
